@@ -601,8 +601,86 @@ def gen_conn():
     write("Conn.lean", text)
 
 
+def gen_asset():
+    """facts of the uuid-asset path the Asset slice relies on (src/lib_priv.rs, networking/assets/mod.rs,
+    {server,client}/{track,receiver}.rs)"""
+    def squash(path):
+        return re.sub(r"\s+", "", strip_comments(open(os.path.join(REPO, path)).read()))
+    priv = squash("src/lib_priv.rs")
+    amod_src = strip_comments(open(os.path.join(REPO, "src/networking/assets/mod.rs")).read())
+    amod = re.sub(r"\s+", "", amod_src)
+    if "pushed_handles_from_network:HashMap<AssId,usize>" in priv:
+        skip = re.sub(r"\s+", "", fn_body(strip_comments(open(os.path.join(REPO, "src/lib_priv.rs")).read()), "skip_network_handle_change"))
+        filed = re.sub(r"\s+", "", fn_body(strip_comments(open(os.path.join(REPO, "src/lib_priv.rs")).read()), "handle_pushed_from_network"))
+        counted = ("*pending-=1;" in skip and "if*pending==0{self.pushed_handles_from_network.remove(&id);}" in skip and "returntrue;" in skip
+                   and "*self.pushed_handles_from_network.entry(id).or_insert(0)+=1;" in filed)
+        if not counted:
+            raise TranslateError("pushed_handles_from_network is a map but its counting is not recognised")
+    elif "pushed_handles_from_network:HashSet<AssId>" in priv:
+        counted = False
+    else:
+        raise TranslateError("pushed_handles_from_network: type not recognised")
+    # request(): anything that returns before the download is queued
+    req = re.sub(r"\s+", "", fn_body(amod_src, "request"))
+    pre = req.split("self.download_pool.execute")[0]
+    if "self.download_pool.execute" not in req:
+        raise TranslateError("request(): download_pool.execute not found")
+    skips_served = "return;" in pre
+    if skips_served and "meshes.contains_key(&id)" not in pre:
+        raise TranslateError("request(): unrecognised early return")
+    # the worker stores what it fetched into the slot of the uuid
+    worker = all(("%s_to_apply.write()" % c) in req for c in ("meshes", "images", "audios")) and req.count("map.insert(id,bytes);") == 3 \
+        and "ureq::get(url.as_str()).call()" in req
+    # process_*: slot drained, one token filed, asset inserted
+    proc = True
+    for c in ("mesh", "image", "audio"):
+        b = re.sub(r"\s+", "", fn_body(amod_src, "process_%s_assets" % c))
+        filed_here = ("sync_tracker.handle_pushed_from_network(id);" in b) or ("sync_tracker.pushed_handles_from_network.insert(id);" in b)
+        proc = proc and "map.drain()" in b and filed_here and ".insert(" in b
+    # react_on_changed_<class>: debounce, serve, announce
+    react = True
+    for side, sender in (("server", "server.send_message(cid,"), ("client", "client.send_message(")):
+        tsrc = strip_comments(open(os.path.join(REPO, "src/%s/track.rs" % side)).read())
+        for fn, serve, msg in (("react_on_changed_meshes", "serve_mesh(id,", "Message::MeshUpdated{"),
+                               ("react_on_changed_images", "serve_image(id,", "Message::ImageUpdated{"),
+                               ("react_on_changed_audios", "serve_audio(id,", "Message::AudioUpdated{")):
+            b = re.sub(r"\s+", "", fn_body(tsrc, fn))
+            i1 = b.find("iftrack.skip_network_handle_change(*id){continue;}")
+            i2 = b.find(serve)
+            i3 = b.find(msg)
+            react = react and "AssetEvent::Added{id}|AssetEvent::Modified{id}" in b and 0 <= i1 < i2 < i3 and sender in b
+    srecv = squash("src/server/receiver.rs")
+    crecv = squash("src/client/receiver.rs")
+    relay = True
+    for c, t in (("Mesh", "Mesh"), ("Image", "Image"), ("Audio", "Audio")):
+        relay = relay and ("Message::%sUpdated{id,url}=>{sync_assets.request(SyncAssetType::%s,id,url.clone());cmd.add(move|world:&mutWorld|{repeat_except_for_client(client_id,&mutworld.resource_mut::<RenetServer>(),&Message::%sUpdated{id,url},);})}" % (c, t, c)) in srecv
+        relay = relay and ("Message::%sUpdated{id,url}=>sync_assets.request(SyncAssetType::%s,id,url)," % (c, t)) in crecv
+    # materials travel inline
+    mat = True
+    for side, sender in (("server", "server.send_message(cid,"), ("client", "client.send_message(")):
+        tsrc = strip_comments(open(os.path.join(REPO, "src/%s/track.rs" % side)).read())
+        b = re.sub(r"\s+", "", fn_body(tsrc, "react_on_changed_materials"))
+        i1 = b.find("iftrack.skip_network_handle_change(*id){continue;}")
+        i2 = b.find("reflect_to_bin(material.as_reflect(),&registry)")
+        i3 = b.find("Message::StandardMaterialUpdated{")
+        mat = mat and "AssetEvent::Added{id}|AssetEvent::Modified{id}" in b and 0 <= i1 < i2 < i3 and sender in b
+    mat = mat and "Message::StandardMaterialUpdated{id,material}=>cmd.add(move|world:&mutWorld|{SyncTrackerRes::apply_material_change_from_network(id,&material,world);repeat_except_for_client(client_id,&mutworld.resource_mut::<RenetServer>(),&Message::StandardMaterialUpdated{id,material},);})," in srecv
+    mat = mat and "Message::StandardMaterialUpdated{id,material}=>cmd.add(move|world:&mutWorld|{SyncTrackerRes::apply_material_change_from_network(id,&material,world);})," in crecv
+    ab = re.sub(r"\s+", "", fn_body(strip_comments(open(os.path.join(REPO, "src/lib_priv.rs")).read()), "apply_material_change_from_network"))
+    j1 = max(ab.find(".handle_pushed_from_network(id);"), ab.find(".pushed_handles_from_network.insert(id);"))
+    j2 = ab.find("materials.insert(id,*mat);")
+    mat = mat and 0 <= j1 < j2
+    text = "/-! GENERATED by /verif/translate/translate.py from src/lib_priv.rs, src/networking/assets/mod.rs, src/{server,client}/{track,receiver}.rs — do not edit. -/\nnamespace BevySync\nnamespace Generated\n\n"
+    for name, val in (("assetTokensCounted", counted), ("assetMaterialInlinePath", mat), ("assetRequestSkipsServed", skips_served), ("assetWorkerStoresIntoSlot", worker),
+                      ("assetProcessFilesToken", proc), ("assetReactDebounceServeAnnounce", react), ("assetReceiversRequestAndRelay", relay)):
+        text += "def %s : Bool := %s\n" % (name, str(bool(val)).lower())
+    text += FOOTER
+    write("Asset.lean", text)
+
+
 def main():
     try:
+        gen_asset()
         gen_conn()
         gen_filter()
         gen_fix()
